@@ -704,6 +704,16 @@ pub struct Globals {
     pub(crate) modules: Arc<Mutex<ModuleTree>>,
 }
 
+#[cfg(petrichorit_des_verif)]
+impl Globals {
+    /// Verification hook (only with `--cfg petrichorit_des_verif`): `(strong, weak)` count of
+    /// the shared module tree.
+    #[must_use]
+    pub fn verif_tree_counts(&self) -> (usize, usize) {
+        (Arc::strong_count(&self.modules), Arc::weak_count(&self.modules))
+    }
+}
+
 impl Globals {
     pub(crate) fn with<R>(&self, f: impl FnOnce(&ModuleTree) -> R) -> R {
         f(&self.modules.lock().expect("failed"))
